@@ -189,38 +189,56 @@ func runC05(c *eng.Ctx) {
 		})
 		r4.Check(ok, f.Key, pos, "returns len(q.items)", "Length() does not return len(q.items)")
 	}
-	if f := r4.NeedFunc(pkgQueue + ".(*TaskQueue).isEmpty"); f != nil {
-		info := f.Pkg.TypesInfo
+	// emptiness is decided on len(items) == 0, in IsEmpty itself or in the unexported isEmpty it returns (which may
+	// have been inlined away by a maintainer)
+	isLenZero := func(info *types.Info, e ast.Expr) bool {
+		b, isB := ast.Unparen(e).(*ast.BinaryExpr)
+		if !isB || b.Op != token.EQL {
+			return false
+		}
+		x, y := b.X, b.Y
+		if _, isC := eng.ConstInt(info, x); isC {
+			x, y = y, x
+		}
+		cl := builtinCall(info, x, "len")
+		v, isC := eng.ConstInt(info, y)
+		return cl != nil && eng.IsField(info, cl.Args[0], items) && isC && v == 0
+	}
+	returnsLenZero := func(f *eng.Func) (bool, token.Pos) {
 		ok := false
 		var pos token.Pos = f.Decl.Pos()
 		eng.InspectNoLit(f.Decl.Body, func(n ast.Node) bool {
 			if r, isR := n.(*ast.ReturnStmt); isR && len(r.Results) == 1 {
 				pos = r.Pos()
-				if b, isB := ast.Unparen(r.Results[0]).(*ast.BinaryExpr); isB && b.Op == token.EQL {
-					if c := builtinCall(info, b.X, "len"); c != nil && eng.IsField(info, c.Args[0], items) {
-						if v, isC := eng.ConstInt(info, b.Y); isC && v == 0 {
-							ok = true
-						}
-					}
-				}
+				ok = isLenZero(f.Pkg.TypesInfo, resolveLocal(f.Pkg.TypesInfo, f.Decl.Body, r.Results[0]))
 			}
 			return true
 		})
-		r4.Check(ok, f.Key, pos, "returns len(q.items) == 0", "isEmpty() is not `len(q.items) == 0`")
+		return ok, pos
+	}
+	inner := p.Func(pkgQueue + ".(*TaskQueue).isEmpty")
+	if inner != nil {
+		c.Touch(inner)
+		ok, pos := returnsLenZero(inner)
+		r4.Check(ok, inner.Key, pos, "returns len(q.items) == 0", "isEmpty() is not `len(q.items) == 0`")
 	}
 	if f := r4.NeedFunc(pkgQueue + ".(*TaskQueue).IsEmpty"); f != nil {
 		info := f.Pkg.TypesInfo
-		isEmpty := p.Method(pkgQueue, "TaskQueue", "isEmpty")
 		ok := false
 		var pos token.Pos = f.Decl.Pos()
-		eng.InspectNoLit(f.Decl.Body, func(n ast.Node) bool {
-			if r, isR := n.(*ast.ReturnStmt); isR && len(r.Results) == 1 {
-				pos = r.Pos()
-				ok = isCallTo(info, r.Results[0], isEmpty)
-			}
-			return true
-		})
-		r4.Check(ok, f.Key, pos, "returns q.isEmpty()", "IsEmpty() does not return isEmpty()")
+		if inner != nil {
+			eng.InspectNoLit(f.Decl.Body, func(n ast.Node) bool {
+				if r, isR := n.(*ast.ReturnStmt); isR && len(r.Results) == 1 {
+					pos = r.Pos()
+					ok = isCallTo(info, r.Results[0], inner.Obj)
+				}
+				return true
+			})
+		}
+		if !ok {
+			ok, pos = returnsLenZero(f)
+		}
+		r4.Check(ok, f.Key, pos, "returns q.isEmpty() / len(q.items) == 0", "IsEmpty() does not return isEmpty()")
 	}
 
 	// ---- R5 Filter
@@ -418,14 +436,18 @@ func runC05R3(c *eng.Ctx, r *eng.RuleCtx) {
 			r.Bad(construct, call.Pos(), ls.fn.Name()+" is not inside a loop over "+ls.name)
 			continue
 		}
-		lastArg := call.Args[len(call.Args)-1]
 		el, isEl := eng.ElemLoopOf(info, loop)
 		dirOK := isEl && el.Desc == ls.desc
 		overOK := isEl && eng.IsField(info, el.Base, ls.field)
-		elemOK := isEl && el.IsElem(lastArg)
-		idOK := true
-		if ls.fn == addAfter {
-			idOK = len(call.Args) == 2 && isCurID(call.Args[0])
+		// the arguments are told apart by what they are, not by their position: one is the loop element (the task),
+		// for addAfter the other one is the id of the handled task
+		elemOK, idOK := false, ls.fn != addAfter
+		for _, a := range call.Args {
+			if isEl && el.IsElem(a) {
+				elemOK = true
+			} else if ls.fn == addAfter && len(call.Args) == 2 && isCurID(a) {
+				idOK = true
+			}
 		}
 		dir := "ascending"
 		if ls.desc {
